@@ -2,7 +2,7 @@ SPECIFICATION NegSpec
 CONSTANTS
   Capacity = 1000000
   AnchorSize = 330
-  MaxRounds = 16
+  MaxRounds = 40
   CommitFees = {6744}
   SmallLo = 0
   SmallHi = 0
@@ -11,7 +11,7 @@ CONSTANTS
   Near = 1
   Lo = 100
   Hi = 700
-  Step = 1
+  Step = 3
   TightCap = TRUE
-INVARIANTS Synced Bounded BothSigned Agree NoStall NoAbort Between TxInvariants
+INVARIANTS Synced Bounded BoundedDefault BothSigned Agree NoStall NoAbort Between TxInvariants
 CHECK_DEADLOCK FALSE
